@@ -40,6 +40,7 @@ type winOrigin struct {
 	Addr   string
 	C      chan winObs
 	Window uint32
+	MaxHdr uint32 // SETTINGS_MAX_HEADER_LIST_SIZE to advertise (0 = none)
 }
 
 func startWinOrigin(window uint32) (*winOrigin, error) {
@@ -68,7 +69,11 @@ func (o *winOrigin) serve(c net.Conn) {
 	}
 	bw := bufio.NewWriter(c)
 	fr := http2.NewFramer(bw, bufio.NewReaderSize(c, 1<<16))
-	fr.WriteSettings(http2.Setting{ID: http2.SettingInitialWindowSize, Val: o.Window})
+	settings := []http2.Setting{{ID: http2.SettingInitialWindowSize, Val: o.Window}}
+	if o.MaxHdr > 0 {
+		settings = append(settings, http2.Setting{ID: http2.SettingMaxHeaderListSize, Val: o.MaxHdr})
+	}
+	fr.WriteSettings(settings...)
 	bw.Flush()
 	dec := hpack.NewDecoder(4096, nil)
 	var hbuf bytes.Buffer
@@ -119,7 +124,10 @@ func (o *winOrigin) serve(c net.Conn) {
 			}
 			s.block = append(s.block, f.HeaderBlockFragment()...)
 			if f.HeadersEnded() {
-				fields, _ := dec.DecodeFull(s.block)
+				fields, derr := dec.DecodeFull(s.block)
+				if derr != nil {
+					s.obs.Err = "hpack: " + derr.Error()
+				}
 				for _, hf := range fields {
 					s.obs.Fields = append(s.obs.Fields, origin.Field{Name: hf.Name, Value: hf.Value})
 					switch hf.Name {
